@@ -74,6 +74,59 @@ class RefModule:
         self.module = m
 
 
+_BUILTIN_SUPERS = {'bool': {'bool', 'int'}, 'int': {'int'}, 'float': {'float'}, 'str': {'str'}, 'dict': {'dict'}, 'list': {'list'},
+                   'tuple': {'tuple'}, 'set': {'set'}, 'NoneType': {'NoneType'}, 'type': {'type'}}
+
+
+def _decide_type_tests(program, t, e, ty):
+    """rewrite the type tests on the expression `e` in t for a value of type `ty` (a builtin type name or the qualified name of a
+    repository class): isinstance / issubclass(e.__class__, ..) / type(e) == / is / in (..) / e is None; tuple(e) of a tuple"""
+    cls = ('attr', e, '__class__')
+
+    def supers():
+        if ty in _BUILTIN_SUPERS:
+            return _BUILTIN_SUPERS[ty] | {'object'}
+        ci = program.classes.get(ty)
+        return ({c.qualname for c in program.mro(ci)} | set(b for c in program.mro(ci) for b in c.base_names) | {'object'}) if ci else None
+
+    def is_sub(X):
+        if X[0] == 'tuple':
+            rs = [is_sub(x) for x in X[1]]
+            return True if any(r is True for r in rs) else (False if all(r is False for r in rs) else None)
+        if X[0] != 'glob':
+            return None
+        sup = supers()
+        if sup is None:
+            return None
+        if X[1] in sup:
+            return True
+        known = X[1] in _BUILTIN_SUPERS or X[1] == 'object' or X[1] in program.classes or X[1].startswith('numpy.')
+        if ty not in _BUILTIN_SUPERS and not all(b in program.classes or b == 'object' for b in sup):
+            return None if not known or X[1] not in program.classes else None   # a repo class with external bases: undecided
+        return False if known else None          # (abstract base classes such as numbers.Integral are left undecided)
+
+    def same(X):
+        return (X[1] == ty) if X[0] == 'glob' else None
+
+    def f(x):
+        if x[0] == 'call' and x[1] == T.G('issubclass') and len(x[2]) == 2 and x[2][0] == cls and not x[3]:
+            r = is_sub(x[2][1])
+            return None if r is None else T.C(r)
+        if x[0] == 'cmp' and x[2] == cls:
+            if x[1] in ('Eq', 'Is', 'NotEq', 'IsNot'):
+                r = same(x[3])
+                return None if r is None else T.C(r == (x[1] in ('Eq', 'Is')))
+            if x[1] in ('In', 'NotIn') and x[3][0] in ('tuple', 'list', 'set') and all(y[0] == 'glob' for y in x[3][1]):
+                r = any(y[1] == ty for y in x[3][1])
+                return T.C(r == (x[1] == 'In'))
+        if x[0] == 'cmp' and x[1] in ('Eq', 'Is', 'NotEq', 'IsNot') and T.C(None) in (x[2], x[3]) and e in (x[2], x[3]):
+            return T.C((ty == 'NoneType') == (x[1] in ('Eq', 'Is')))
+        if x[0] == 'call' and x[1] == T.G('tuple') and len(x[2]) == 1 and x[2][0] == e and not x[3] and ty == 'tuple':
+            return e
+        return None
+    return T.replace(t, f)
+
+
 def _is_unspecified(t):
     return t[0] == 'ret' and T.is_node(t[1]) and t[1][0] == 'glob' and t[1][1].endswith('__unspecified__')
 
@@ -131,7 +184,12 @@ class Contracts:
             extra = cl.params[len(rl.params):]
             a = cfi.node.args
             kwonly = {x.arg for x in a.kwonlyargs}
-            if all(p in dflt for p in extra) and not a.kwarg and (not a.vararg or all(p in kwonly for p in extra)):
+            ra = rfi.node.args
+            if a.vararg and not ra.vararg and a.vararg.arg in extra and not a.kwarg and \
+                    all(p in dflt or p == a.vararg.arg for p in extra) and all(p in kwonly or p == a.vararg.arg for p in extra):
+                # a new *args (and keyword-only parameters with defaults after it): existing calls leave it empty
+                extra_defaults = {p: (dflt[p] if p in dflt else ('tuple', ())) for p in extra}
+            elif all(p in dflt for p in extra) and not a.kwarg and (not a.vararg or all(p in kwonly for p in extra)):
                 extra_defaults = {p: dflt[p] for p in extra}
             else:
                 raise ParamMismatch(f"{qualname}: code has parameters {cl.params}, reference {rl.params}")
@@ -141,6 +199,27 @@ class Contracts:
         cterm, rterm = cl.term(), rl.term()
         if extra_defaults:
             cterm = T.subst(cterm, extra_defaults)
+        # a parameter that is only ever handed on to the function's own recursive calls influences nothing: dead on both sides,
+        # its value in those calls is not compared (a deprecation of such a parameter passes a constant instead)
+        selfq = T.G(cfi.qualname)
+
+        def dead(term, p_):
+            uses = sum(1 for x in T.walk(term) if x == T.V(p_))
+            handed = sum(1 for x in T.walk(term) if x[0] == 'call' and x[1] == selfq and not x[2]
+                         for k_, v_ in x[3] if k_ == p_ and v_ == T.V(p_))
+            return uses == handed
+        try:
+            cn, rn = T.norm(cterm), T.norm(rterm)
+            deadp = [p_ for p_ in cl.params[1:] if dead(cn, p_) and dead(rn, p_) and any(
+                x[0] == 'call' and x[1] == selfq for x in T.walk(rn))]
+        except Exception:
+            deadp = []
+        if deadp:
+            def undead(t):
+                if t[0] == 'call' and t[1] == selfq and not t[2]:
+                    return ('call', t[1], t[2], tuple((k_, v_) for k_, v_ in t[3] if k_ not in deadp))
+                return None
+            cterm, rterm = T.replace(cn, undead), T.replace(rn, undead)
         if pid not in (meta.get("raise_class") or ()):
             # which exception class a refusal uses is not part of any property except where a contract says so
             # (`raise_class`): `raise Exception(..)` -> `raise ValueError(..)` is not a deviation
@@ -223,6 +302,12 @@ class Contracts:
         for src in meta.get("domain", []):
             lw = T.Lower(T.Scope(self.program, cfi.module, cfi.cls, cfi), set(cl.params))
             dexprs.append((src, T.norm(lw.e(ast.parse(src, mode="eval").body))))
+        # declared types of parameters (or of expressions over them): the property quantifies over inputs of these types only, so
+        # every type test on them is decided per type - a branch for another type (an accepted shorthand, a refusal) is outside
+        texprs = []
+        for src, tys in (meta.get("types") or {}).items():
+            lw = T.Lower(T.Scope(self.program, cfi.module, cfi.cls, cfi), set(cl.params))
+            texprs.append((src, T.norm(lw.e(ast.parse(src, mode="eval").body)), list(tys)))
         for name, sub in cases:
             def rep(t, sub=sub):
                 if t[0] == 'attr' and t[2] in sub:
@@ -230,25 +315,32 @@ class Contracts:
                 return None
             c0 = T.dtree(T.norm(T.replace(cfull, rep) if sub else cfull))
             r0 = T.dtree(T.norm(T.replace(rfull, rep) if sub else rfull))
-            if not bexprs and not dexprs:
+            if not bexprs and not dexprs and not texprs:
                 out.append((name, T.canon(T.debruijn(c0)), T.canon(T.debruijn(r0))))
                 continue
             import itertools as _it
-            for vals in _it.product([True, False], repeat=len(bexprs)):
+            for tcombo in _it.product(*[[(src, e, ty) for ty in tys] for src, e, tys in texprs]):
+              tname = " ".join(f"[{src}: {ty}]" for src, _, ty in tcombo)
+              def typed(t, tcombo=tcombo):
+                  for _, e, ty in tcombo:
+                      t = _decide_type_tests(self.program, t, e, ty)
+                  return T.norm(t) if tcombo else t
+              c0t, r0t = typed(c0), typed(r0)
+              for vals in _it.product([True, False], repeat=len(bexprs)):
                 facts = list(zip(bexprs, vals)) + [(d, True) for d in dexprs]
                 def rep2(t, facts=facts):
                     for (src, e), v in facts:
                         if t == e:
                             return T.C(v)
                     return None
-                nm = name + " " + ", ".join(f"[{src}]={v}" for (src, _), v in zip(bexprs, vals))
+                nm = name + " " + tname + " " + ", ".join(f"[{src}]={v}" for (src, _), v in zip(bexprs, vals))
                 def under(t, facts=facts):
                     # the case assumption also decides what follows from it (x == 'bool' makes x == 'int' false)
                     t = T.canonical(T.replace(t, rep2))
                     for (src, e), v in facts:
                         t = T._assume(t, T.canonical(e), v)
                     return T.canon(t)
-                out.append((nm.strip(), under(c0), under(r0)))
+                out.append((nm.strip(), under(c0t), under(r0t)))
         return out, cfi, rfi, meta
 
     def check(self, qualname, variant=None, pid=None):
